@@ -96,6 +96,8 @@ pub(super) fn start_background_workers(fsync_schedule: FsyncSchedule) -> Arc<mps
                         if let Some(storage) = pool.get(path) {
                             if let Some(fd_backend) = storage.as_fd() {
                                 let raw_fd = fd_backend.file().as_raw_fd();
+                                #[cfg(walrus_verif)]
+                                crate::wal::verif::io(crate::wal::verif::Io::FsyncFile { path });
                                 fsync_batch.push((raw_fd, path.clone()));
                             }
                         }
@@ -155,6 +157,8 @@ pub(super) fn start_background_workers(fsync_schedule: FsyncSchedule) -> Arc<mps
                 } else {
                     for path in unique.iter() {
                         if let Some(storage) = pool.get_mut(path) {
+                            #[cfg(walrus_verif)]
+                            crate::wal::verif::io(crate::wal::verif::Io::FsyncFile { path });
                             if let Err(e) = storage.flush() {
                                 debug_print!("[flush] flush error for {}: {}", path, e);
                             }
@@ -193,6 +197,8 @@ pub(super) fn start_background_workers(fsync_schedule: FsyncSchedule) -> Arc<mps
 
                     // Perform batched deletions now that mmaps/fds are dropped
                     for path in delete_pending.drain() {
+                        #[cfg(walrus_verif)]
+                        crate::wal::verif::io(crate::wal::verif::Io::Unlink { path: &path });
                         match fs::remove_file(&path) {
                             Ok(_) => debug_print!("[reclaim] deleted file {}", path),
                             Err(e) => {
